@@ -49,7 +49,7 @@ def _names(case):
     out = ("out" + suffix) if case["out"] else None
     bak_mode = case["bak"]
     if bak_mode == "other":
-        bak = inp + ".old"
+        bak = inp + case.get("bak_ext", ".old")  # .old / .tmp / .bak / ~ : names a save routine might use itself
     elif bak_mode == "input":
         bak = inp
     elif bak_mode == "output":
@@ -106,6 +106,10 @@ def check(case):
         files = {inp: data}
         if case["bystanders"]:
             files["other" + case["suffix"]] = b"#TITLE:bystander;\n"
+            # neighbours carrying names a save routine might pick for its own temporary files
+            for n in ff.tempish_names(inp, out):
+                if n not in (inp, out, bak):
+                    files[n] = b"#TITLE:do not touch " + n.encode() + b";\n"
             files["notes.txt"] = b"\xff\xfe not a simfile"
         if out and case["pre_out"]:
             files[out] = b"#TITLE:" + b"old output " * 40 + b";\n"
@@ -368,6 +372,7 @@ def s_case(draw):
         "pre_out": draw(st.booleans()),
         "pre_bak": draw(st.booleans()),
         "bystanders": draw(st.booleans()),
+        "bak_ext": draw(st.sampled_from([".old", ".old", ".tmp", ".bak", "~", ".new"])),
         "script": draw(ff.s_script(suffix, max_ops=5)),
     }
 
